@@ -16,7 +16,7 @@ from .common import SCtx, sctx, fnctx, is_self_call
 from .toposort_rules import check_toposort
 
 PROP = "C01"
-FLOORS = {"C01.R1": 7, "C01.R2": 5, "C01.R3": 8, "C01.R4": 2, "C01.R5": 7, "C01.R6": 1, "C01.R7": 4, "C01.R8": 14, "C01.R9": 30, "C01.R10": 7}
+FLOORS = {"C01.R1": 7, "C01.R2": 5, "C01.R3": 8, "C01.R4": 2, "C01.R5": 7, "C01.R6": 1, "C01.R7": 4, "C01.R8": 14, "C01.R9": 30, "C01.R10": 7, "C01.R11": 4}
 META = {
     "explanation": "Static discharge of the update protocol behind C01: on the control-flow graph of Manager.set_value "
                    "(after inlining of helpers) every path unregisters an existing definition, registers the new ExprTask, "
@@ -484,3 +484,8 @@ def check(col: Collector):
                why="an expression is re-evaluated only when one of its reported dependencies is assigned")
     with col.rule():
         c02.inverse_effects(col, "C01.R10")
+    # the location written by an assignment is the location read back: the key is resolved the same way on both sides
+    from . import c04
+    with col.rule():
+        shared(col, "C01.R11", [c04._leaves], select=lambda o: "_set_value#" in o.construct or "_get_value#" in o.construct,
+               why="a value stored under the unevaluated key object is not the value later read under the evaluated key")
